@@ -327,6 +327,8 @@ def run(ctx):
     from ..core import borrow
     from . import c06
     borrow(ctx, "C04", c06.rule_si, ctx.py)
+    from . import c12 as _c12
+    borrow(ctx, "C04", _c12.rule_schema, ctx.py)      # a units declaration is found under every alias of its key
     borrow(ctx, "C04", c06.rule_derived, ctx.py)      # litre / molar symbols keep their SI meaning: "2 pL" is 2e-15 m3
     borrow(ctx, "C04", c06.rule_keys, ctx.py)
     borrow(ctx, "C04", c06.rule_dimguard, ctx.py)
